@@ -3,6 +3,7 @@ package main
 import (
 	"fmt"
 	"go/ast"
+	"go/printer"
 	"go/token"
 	"go/types"
 	"reflect"
@@ -212,6 +213,14 @@ func generate() {
 		"bep44/store.go Wrapper.Get: `X.Lock(); defer X.Unlock()` precedes w.s.Get (derived from the events of evWrapperGet)")
 	defBool("wrapperSameLock", putLocked && getLocked && putMu == getMu && strings.HasPrefix(putMu, "w."),
 		"bep44/store.go: Wrapper.Put and Wrapper.Get lock the same field of the wrapper")
+	// decision expressions of small pure functions, interpreted by Lean (Model/SourceTrees.lean)
+	funcDExp("treeCheckIncoming", "bep44/item.go", "", "CheckIncoming")
+	funcDExp("treeShouldReturnNodes", "server.go", "", "shouldReturnNodes")
+	funcDExp("treeShouldReturnNodes6", "server.go", "", "shouldReturnNodes6")
+	funcDExp("treeNodeErr", "server.go", "Server", "nodeErr")
+	funcDExp("treeIsGood", "node.go", "Server", "IsGood")
+	funcDExp("treeHaveQuery", "traversal/operation.go", "Operation", "haveQuery")
+	funcDExp("treeValidNodeAddr", "server.go", "", "validNodeAddr")
 	c14Facts() // C14: sender/Close event lists, control-flow graphs of the traversal owners (owners.go)
 }
 
@@ -265,11 +274,19 @@ func dexpOfArg(e ast.Expr) string {
 	return "DExp.ret " + leanStr(types.ExprString(e))
 }
 
+// statements skipped while reading a body as a decision expression (assignments, declarations)
+var dexpLets []string
+
 func dexpOfStmts(l []ast.Stmt) string {
 	if len(l) == 0 {
 		return "DExp.fall"
 	}
 	switch x := l[0].(type) {
+	case *ast.AssignStmt, *ast.DeclStmt:
+		var b strings.Builder
+		printer.Fprint(&b, fset, x)
+		dexpLets = append(dexpLets, strings.Join(strings.Fields(b.String()), " "))
+		return dexpOfStmts(l[1:])
 	case *ast.ReturnStmt:
 		if len(x.Results) == 1 {
 			return "DExp.ret " + leanStr(types.ExprString(x.Results[0]))
@@ -588,4 +605,16 @@ func lockedAcross(fn *ast.FuncDecl, first string) (bool, string) {
 		}
 	}
 	return false, ""
+}
+
+// The body of a function made of if / return (and skipped simple statements) as a DExp, plus the skipped statements.
+func funcDExp(name, rel, recv, fn string) {
+	fd := findFunc(rel, recv, fn)
+	dexpLets = nil
+	e := "DExp.other"
+	if fd != nil && fd.Body != nil {
+		e = dexpOfStmts(fd.Body.List)
+	}
+	fmt.Fprintf(&out, "/-- decision expression of `%s` in %s -/\ndef %s : DExp := %s\n\n", fn, rel, name, e)
+	defStrList(name+"Lets", dexpLets, "simple statements of `"+fn+"` skipped while reading it as a decision expression")
 }
